@@ -32,7 +32,8 @@ def gen_case(rng, thorough):
     mode = int(rng.integers(0, 3))
     ns = int(rng.integers(0, n + 1)) if mode == 0 else None
     thr = float(rng.integers(0, 9)) / 8.0 if mode == 1 else None
-    clf = "lda" if rng.random() < 0.7 else "ridge"
+    u = rng.random()
+    clf = "default" if u < 0.35 else ("lda" if u < 0.75 else "ridge")      # "default": the classifier argument is left to the constructor
     hist = [["fit", int(rng.integers(1, nd + 1)), bool(rng.random() < 0.6)]]
     for _ in range(int(rng.integers(2, 13 if thorough else 8))):
         r = rng.random()
@@ -54,7 +55,7 @@ def gen_case(rng, thorough):
 def make_clf(case):
     from sklearn.discriminant_analysis import LinearDiscriminantAnalysis
     from sklearn.linear_model import RidgeClassifier
-    return LinearDiscriminantAnalysis() if case["clf"] == "lda" else RidgeClassifier(alpha=1.0)
+    return LinearDiscriminantAnalysis() if case["clf"] in ("lda", "default") else RidgeClassifier(alpha=1.0)
 
 
 def new_model(case, bmodes="ctor", **over):
@@ -64,6 +65,8 @@ def new_model(case, bmodes="ctor", **over):
         b["n_basis_modes"] = bmodes
     kw = {"n_sensors": case["n_sensors"], "threshold": case["threshold"]}
     kw.update(over)
+    if case["clf"] == "default":
+        return SSPOC(basis=impl.make_basis(b), **kw)
     return SSPOC(basis=impl.make_basis(b), classifier=make_clf(case), **kw)
 
 
@@ -84,6 +87,8 @@ def apply_op(model, case, op):
 
 
 def safe_predict(model, P):
+    # another default-constructed model, fitted and used on other data in between, must not influence this one
+    impl.sspoc_bystander(int(np.asarray(P).shape[-1]) + 2, n_classes=2 + (int(np.asarray(P).shape[-1]) % 2))
     try:
         return np.asarray(impl.quiet(model.predict, P)).tolist(), None
     except Exception as e:
